@@ -594,6 +594,92 @@ Section Facts.
     replace (N.of_nat (N.to_nat n - 8)) with (n - 8) by lia. reflexivity.
   Qed.
 
+  (* C12, truncation under read/skip programs: whatever mix of ReadNext and SkipNext runs over a cut file, a record
+     returned at step i is record i of the written file, and it lies completely inside the cut *)
+  Lemma skip_next_cut pre r t : size_ok r -> pprefix t (enc_rec c r) ->
+    (exists e, skip_next c (pre ++ t) (lenN pre) = (Err e, lenN pre))
+    \/ (exists pos, skip_next c (pre ++ t) (lenN pre) = (Ok tt, pos) /\ lenN (pre ++ t) < pos).
+  Proof.
+    intros Hs Hp. destruct (enc_rec_shape r Hs) as (u & cs & z & Hu & Hc & He & Hz).
+    rewrite He in Hp. apply pprefix_app in Hp. destruct Hp as [Hp | (t' & -> & Hp)].
+    - left. destruct (parse_hdr_stream_cut u cs (isnone r) t Hu Hc Hp) as (e & Hee & Hd).
+      exists e. unfold skip_next. cbv zeta. rewrite skipn_lenN_app, Hd.
+      destruct Hee as [-> | ->]; reflexivity.
+    - right. destruct r as [p|]; [|subst z; exfalso; exact (pprefix_nil_r _ Hp)].
+      destruct Hz as [Hn Hd]. cbn [isnone].
+      exists (lenN pre + lenN (hdr u cs false) + lenN z). split.
+      + unfold skip_next. cbv zeta. rewrite skipn_lenN_app.
+        rewrite parse_hdr_stream_hdr by assumption. rewrite Hn. reflexivity.
+      + pose proof (pprefix_lenN _ _ Hp) as Hlt. rewrite !lenN_app. lia.
+  Qed.
+
+  Lemma read_mixed_beyond f pos prog : lenN f <= pos ->
+    read_mixed c f pos prog = match prog with [] => [] | _ :: _ => [Err EOF] end.
+  Proof.
+    intros H. destruct prog as [|b p]; [reflexivity|].
+    assert (S : skipn (N.to_nat pos) f = []) by (apply skipn_all2; unfold lenN in H; lia).
+    cbn [read_mixed]. unfold read_next, skip_next. cbv zeta. rewrite S.
+    destruct b; reflexivity.
+  Qed.
+
+  Ltac no_such_entry H i :=
+    cbn [nth_error] in H; first [discriminate H | destruct i as [|i]; no_such_entry H i].
+
+  Lemma mixed_cut_gen rs : forall prog pre k i x, Forall size_ok rs ->
+    nth_error (read_mixed c (pre ++ firstn k (encs rs)) (lenN pre) prog) i = Some (Ok (Some x)) ->
+    nth_error rs i = Some x /\ (length (encs (firstn (S i) rs)) <= k)%nat.
+  Proof.
+    induction rs as [|r rs IH]; intros prog pre k i x HF H.
+    - exfalso. cbn [encs flat_map] in H. rewrite firstn_nil, app_nil_r in H.
+      destruct prog as [|b p]; [destruct i; discriminate H|].
+      cbn [read_mixed] in H.
+      destruct b; [rewrite read_next_end in H|rewrite skip_next_end in H]; no_such_entry H i.
+    - inversion HF as [|r' rs' Hr HF']; subst r' rs'.
+      destruct prog as [|b p]; [destruct i; discriminate H|].
+      rewrite encs_cons in H.
+      destruct (Nat.le_gt_cases (length (enc_rec c r)) k) as [Hle|Hgt].
+      + rewrite firstn_app_long in H by exact Hle. cbn [read_mixed] in H.
+        destruct b.
+        * rewrite read_next_one in H by exact Hr. rewrite <- lenN_app, app_assoc in H.
+          destruct i as [|i].
+          -- cbn [nth_error] in H. inversion H; subst x. split; [reflexivity|].
+             cbn [firstn]. rewrite encs_cons. cbn [encs flat_map]. rewrite app_nil_r. exact Hle.
+          -- cbn [nth_error] in H. apply IH in H; [|exact HF']. destruct H as [H1 H2].
+             split; [exact H1|].
+             change (firstn (S (S i)) (r :: rs)) with (r :: firstn (S i) rs).
+             rewrite encs_cons, app_length. lia.
+        * rewrite skip_next_one in H by exact Hr. rewrite <- lenN_app, app_assoc in H.
+          destruct i as [|i]; [discriminate H|].
+          cbn [nth_error] in H. apply IH in H; [|exact HF']. destruct H as [H1 H2].
+          split; [exact H1|].
+          change (firstn (S (S i)) (r :: rs)) with (r :: firstn (S i) rs).
+          rewrite encs_cons, app_length. lia.
+      + exfalso. rewrite firstn_app in H. replace (k - length (enc_rec c r))%nat with 0%nat in H by lia.
+        cbn [firstn] in H. rewrite app_nil_r in H. cbn [read_mixed] in H.
+        destruct b.
+        * destruct (read_next_cut pre r (firstn k (enc_rec c r)) Hr (pprefix_firstn k _ Hgt)) as (e & _ & Hrd).
+          rewrite Hrd in H. no_such_entry H i.
+        * destruct (skip_next_cut pre r (firstn k (enc_rec c r)) Hr (pprefix_firstn k _ Hgt)) as [(e & Hsk)|(pos & Hsk & Hpos)].
+          -- rewrite Hsk in H. no_such_entry H i.
+          -- rewrite Hsk in H. rewrite read_mixed_beyond in H by lia.
+             destruct p as [|b' p']; no_such_entry H i.
+  Qed.
+
+  Theorem truncation_mixed (rs : list (option bytes)) (n : N) (prog : list bool) :
+    Forall size_ok rs -> 8 <= n ->
+    let f := file_hdr (ctype c) ++ flat_map (enc_rec c) rs in
+    n <= lenN f ->
+    forall i x, nth_error (read_mixed c (firstn (N.to_nat n) f) 8 prog) i = Some (Ok (Some x)) ->
+      nth_error rs i = Some x /\ 8 + lenN (flat_map (enc_rec c) (firstn (S i) rs)) <= n.
+  Proof.
+    intros HF Hn f Hlen i x H. subst f.
+    rewrite lenN_app, file_hdr_lenN in Hlen.
+    rewrite firstn_app_long in H by (rewrite file_hdr_len; lia). rewrite file_hdr_len in H.
+    pose proof (mixed_cut_gen rs prog (file_hdr (ctype c)) (N.to_nat n - 8)%nat i x HF) as G.
+    rewrite file_hdr_lenN in G. unfold encs in G. apply G in H. destruct H as [H1 H2].
+    split; [exact H1|]. unfold lenN. lia.
+  Qed.
+
   Lemma encs_app_cons pre r post :
     flat_map (enc_rec c) (pre ++ r :: post)
     = flat_map (enc_rec c) pre ++ enc_rec c r ++ flat_map (enc_rec c) post.
@@ -650,3 +736,15 @@ Print Assumptions skip_is_read_discard.
 Print Assumptions truncation_prefix.
 Print Assumptions truncation_read_at.
 Print Assumptions write_read_example.
+
+(* non-vacuity of truncation_mixed: a file of three records (the middle one nil) cut inside the payload of the third;
+   skip, read, skip, read: the nil record is returned at step 1, the skip of the cut record succeeds (it only seeks),
+   nothing is returned after it *)
+Example truncation_mixed_example :
+  let rs := [Some [1; 2; 3]; None; Some [9; 9; 9; 9]] in
+  let f := file_hdr 0 ++ flat_map (enc_rec id_codec) rs in
+  lenN f = 47 /\
+  read_mixed id_codec (firstn 45 f) 8 [false; true; false; true] = [Ok None; Ok (Some None); Ok None; Err EOF]
+  /\ read_mixed id_codec (firstn 45 f) 8 [true; false; true] = [Ok (Some (Some [1; 2; 3])); Ok None; Err UnexpectedEOF].
+Proof. vm_compute. repeat split; reflexivity. Qed.
+Print Assumptions truncation_mixed.
